@@ -21,6 +21,7 @@ func init() {
 	reg("C04", "C04.R4", "E2+E1", "blocked-stream time-out: register/blockTime before Wait, deregister after; heartbeat goroutine unblocks registered streams", 1, ruleBlockedTimeout)
 	reg("C04", "C04.R5", "E2+E3", "batcher flush heartbeat: goroutine started, takes the fill lock, re-evaluates readiness incl. age; reset restarts the clock", 1, ruleFlushHeartbeat)
 	reg("C04", "C04.R6", "E1", "batch worker never reaches a Lock of the fill lock", 1, ruleWorkerNoFillLock)
+	reg("C04", "C04.R7", "E1+E2", "processor pool growth: a processor counts as active for the whole ownership of a stream; the pool doubles when all are active", 3, ruleProcPoolGrowth)
 }
 
 type condField struct {
@@ -1021,4 +1022,89 @@ func (c *Ctx) isReadinessLit(v ssa.Value) bool {
 	}
 	walk(v, 0)
 	return ok
+}
+
+// ruleProcPoolGrowth: when every processor is pinned behind a multi-line action (asleep in
+// blockGet), the only rescue for other charged streams is that the pool doubles; that happens
+// exactly when the active count equals the processor count, so a processor must count as
+// active for the whole time it owns a stream.
+func ruleProcPoolGrowth(c *Ctx, r *Rule) {
+	proc := c.Method("pipeline", "processor", "process")
+	grow := c.Method("pipeline", "Pipeline", "growProcs")
+	if proc == nil || grow == nil {
+		r.Unresolved("processor.process / Pipeline.growProcs")
+		return
+	}
+	name := c.fnName(proc)
+	// writers of the active counter
+	var incs, decs []ssa.CallInstruction
+	c.eachCall(func(fn *ssa.Function, ci ssa.CallInstruction) {
+		for _, m := range []string{"Inc", "Dec", "Add", "Sub", "Store", "Swap", "CAS", "CompareAndSwap"} {
+			if atomicOpOnPtr(ci, m, "processor", "activeCounter") || atomicOpOnPtr(ci, m, "Pipeline", "activeProcs") {
+				r.Inst(1)
+				if fn != proc || (m != "Inc" && m != "Dec") {
+					r.Ob(false, c.fnName(fn)+"|active-counter-writer|"+m, ci.Pos(), "the active-processor count is changed only by processor.process, once up when a stream is taken and once down when it is left (a processor waiting for the next event of its stream still owns the stream)")
+					continue
+				}
+				if m == "Inc" {
+					incs = append(incs, ci)
+				} else {
+					decs = append(decs, ci)
+				}
+			}
+		}
+	})
+	r.Ob(len(incs) == 1 && len(decs) == 1, name+"|one-inc-one-dec", proc.Pos(), fmt.Sprintf("processor.process raises the active count once and lowers it once per stream (found %d / %d)", len(incs), len(decs)))
+	if len(incs) == 1 && len(decs) == 1 {
+		// the stream is worked on between the two
+		var work ssa.CallInstruction
+		for _, ci := range callsIn(proc) {
+			if f := calleeFunc(ci); f != nil && c.inModule(f) && recvNamed(f) != nil && recvNamed(f).Obj().Name() == "processor" && instrDominates(incs[0], ci) {
+				if to, _ := c.pathExists(proc, ci, func(in ssa.Instruction) bool { return in == ssa.Instruction(decs[0]) }, nil); to {
+					work = ci
+				}
+			}
+		}
+		r.Ob(work != nil, name+"|brackets-the-work", incs[0].Pos(), "the stream is processed between raising and lowering the count")
+	}
+	// the pool grows exactly when all processors are active
+	gname := c.fnName(grow)
+	n := 0
+	for _, ci := range callsIn(grow) {
+		f := calleeFunc(ci)
+		if f == nil || f.Name() != "expandProcs" {
+			continue
+		}
+		n++
+		r.Inst(1)
+		ok := false
+		for _, l := range c.unitGuards(ci) {
+			if op, x, y, isCmp := cmpLit(l); isCmp && op == token.EQL {
+				a := isAtomicLoadOfPtr(x, "Pipeline", "procCount") && isAtomicLoadOfPtr(y, "Pipeline", "activeProcs")
+				b := isAtomicLoadOfPtr(y, "Pipeline", "procCount") && isAtomicLoadOfPtr(x, "Pipeline", "activeProcs")
+				if a || b {
+					ok = true
+				}
+			}
+		}
+		r.Ob(ok, gname+"|grows-when-all-active", ci.Pos(), "the processor pool is doubled when the number of active processors equals the number of processors")
+	}
+	r.Ob(n >= 1, gname+"|expands", grow.Pos(), "growProcs can expand the pool")
+}
+
+// atomicOpOnPtr: ci is method `name` called on the value loaded from pointer field typ.field (*atomic.Int32).
+func atomicOpOnPtr(ci ssa.CallInstruction, name, typ, field string) bool {
+	f := calleeFunc(ci)
+	if f == nil || f.Name() != name || len(ci.Common().Args) == 0 {
+		return false
+	}
+	return isLoadOfField(ci.Common().Args[0], pipelinePkg, typ, field)
+}
+
+func isAtomicLoadOfPtr(v ssa.Value, typ, field string) bool {
+	call, ok := stripConv(v).(*ssa.Call)
+	if !ok || call.Call.StaticCallee() == nil || call.Call.StaticCallee().Name() != "Load" || len(call.Call.Args) == 0 {
+		return false
+	}
+	return isLoadOfField(call.Call.Args[0], pipelinePkg, typ, field)
 }
